@@ -534,6 +534,8 @@ def oracle_c04(case, res, guard=True):
         if f["ev"] not in rows or (f["lot"] is not None and f["lot"] not in rows):
             return f"fraction {k} refers to an unknown transaction"
         e = exact_fields(rows[f["ev"]])
+        if e["amount"] == 0 or (f["lot"] is not None and rows[f["lot"]][7] == 0):
+            continue            # nothing to pro-rate (no formula of the property applies to a zero amount)
         px = e["fiat_taxable"] * F(f["amt"], U) / F(e["amount"], U)
         cx = F(0) if f["lot"] is None else exact_fields(rows[f["lot"]])["fiat_with_fee"] * F(f["amt"], U) / F(rows[f["lot"]][7], U)
         p, c, g = F(f["proceeds"]), F(f["cost"]), F(f["gain"])
